@@ -1,12 +1,685 @@
-//! C06 — (stub: no ops yet)
+//! C06 — modified peptide forms
+//!
+//!   modkey <key:hex>
+//!        -> ok <kind 0..4> <0 | 1 residue> <display:hex> | err:empty | err:residue <code point> | err:toolong
+//!           (`ModificationSpecificity::from_str`, and `to_string` of what it returned)
+//!   apply <pos 0..3> <seq:hex> <max> <nvar> {<key:hex> <nmass> <f32>*} <nstatic> {<key:hex> <f32>}
+//!        -> err:invalid | ok <k> <static idx>*k <nforms> {<0|1 f32> <len> <f32>*len <0|1 f32> <f32 mono>}
+//!           (`Peptide::try_from(DigestGroup)` then `Peptide::apply`; static mods go through
+//!            `validate_mods`, variable keys through `from_str` + the flat_map of `Parameters::digest`;
+//!            the k indices are the iteration order of the static HashMap; forms sorted)
+//!   dbforms <seq:hex> <max> <f32 lo> <f32 hi> <vars> <statics>
+//!        -> ok <nforms> {form} <nall> {form}
+//!           (`Builder::make_parameters` + `Parameters::digest` on a one-protein FASTA with
+//!            `cleave_at = "$"`: the whole protein is one peptide, Position::Full; sorted; first with
+//!            the bounds [lo, hi], then with [-inf, +inf])
 use super::Info;
-use crate::proto::{Case, Rng, Tier, Toks};
+use crate::proto::{Case, Out, Rng, Tier, Toks};
+use sage_core::database::{Builder, EnzymeBuilder};
+use sage_core::enzyme::{Digest, DigestGroup, Position};
+use sage_core::fasta::Fasta;
+use sage_core::modification::{validate_mods, InvalidModification, ModificationSpecificity};
+use sage_core::peptide::Peptide;
+use std::collections::HashMap;
+use std::str::FromStr;
+use std::sync::Arc;
 
-pub const OPS: &[&str] = &[];
-pub const INFO: Info = Info { rule: "", serial: false };
+pub const OPS: &[&str] = &["modkey", "apply", "dbforms"];
+pub const INFO: Info = Info {
+    rule: "modkey: every string of length <= 2 (quick) / <= 3 (thorough) over the 12-character alphabet \
+           ^ $ [ ] M K A Z B m e-acute '-', all 114 documented keys, every ASCII character alone and after each marker, \
+           a few 3/4-byte characters. apply: peptides of length 0..8 (12 thorough) over a small residue alphabet \
+           (so residues repeat), all four positions, max_variable_mods 0..4, 0..4 variable keys (residues of the \
+           peptide, the four markers with and without its first/last residue, several masses per key, sometimes \
+           invalid keys, sometimes invalid residues), 0..3 static keys; directed streams: overlapping candidates \
+           (^A + A with the same mass, a mass listed twice), variable + static on the same residue, both termini \
+           of a length-1 peptide, overlapping static mods, zero masses; exhaustive small scope: all sequences over \
+           {A,K} up to length 2 (4 thorough) x 4 positions x 12 variable sets x 6 static sets x max 1..2 (1..3). \
+           dbforms: the same peptides through Parameters::digest with mass bounds placed on / one ulp around the \
+           masses of generated forms. non-trivial = at least one modified form generated (apply), bound cuts the \
+           form list (dbforms); distinct by request line",
+    serial: false,
+};
 
-pub fn gen(_rng: &mut Rng, _tier: Tier, _emit: &mut dyn FnMut(Case)) {}
+type VarMods = Vec<(String, Vec<f32>)>;
+type StaticMods = Vec<(String, f32)>;
 
-pub fn exec(_op: &str, _t: &mut Toks) -> Option<String> {
-    None
+fn write_mods(o: &mut Out, vars: &VarMods, statics: &StaticMods) {
+    o.n(vars.len());
+    for (k, ms) in vars {
+        o.s(k).n(ms.len());
+        for m in ms {
+            o.f32(*m);
+        }
+    }
+    o.n(statics.len());
+    for (k, m) in statics {
+        o.s(k).f32(*m);
+    }
+}
+
+fn req_apply(pos: usize, seq: &str, max: usize, vars: &VarMods, statics: &StaticMods) -> String {
+    let mut o = Out::new();
+    o.raw("apply").n(pos).s(seq).n(max);
+    write_mods(&mut o, vars, statics);
+    o.finish()
+}
+
+fn req_db(seq: &str, max: usize, lo: f32, hi: f32, vars: &VarMods, statics: &StaticMods) -> String {
+    let mut o = Out::new();
+    o.raw("dbforms").s(seq).n(max).f32(lo).f32(hi);
+    write_mods(&mut o, vars, statics);
+    o.finish()
+}
+
+fn req_key(k: &str) -> String {
+    let mut o = Out::new();
+    o.raw("modkey").s(k);
+    o.finish()
+}
+
+fn position(n: usize) -> Option<Position> {
+    Some(match n {
+        0 => Position::Nterm,
+        1 => Position::Cterm,
+        2 => Position::Full,
+        3 => Position::Internal,
+        _ => return None,
+    })
+}
+
+fn read_mods(t: &mut Toks) -> Option<(VarMods, StaticMods)> {
+    let vars = t.list(|t| {
+        let k = t.string()?;
+        let ms = t.list(|t| t.f32())?;
+        Some((k, ms))
+    })?;
+    let statics = t.list(|t| {
+        let k = t.string()?;
+        let m = t.f32()?;
+        Some((k, m))
+    })?;
+    Some((vars, statics))
+}
+
+fn write_form(o: &mut Vec<u64>, p: &Peptide) {
+    let opt = |o: &mut Vec<u64>, x: Option<f32>| match x {
+        None => o.push(0),
+        Some(v) => {
+            o.push(1);
+            o.push(v.to_bits() as u64)
+        }
+    };
+    opt(o, p.nterm);
+    o.push(p.modifications.len() as u64);
+    for m in &p.modifications {
+        o.push(m.to_bits() as u64);
+    }
+    opt(o, p.cterm);
+    o.push(p.monoisotopic.to_bits() as u64);
+}
+
+fn write_forms(o: &mut Out, forms: &[Peptide]) {
+    let mut toks: Vec<Vec<u64>> = forms
+        .iter()
+        .map(|p| {
+            let mut v = Vec::new();
+            write_form(&mut v, p);
+            v
+        })
+        .collect();
+    toks.sort();
+    o.n(toks.len());
+    for f in toks {
+        for x in f {
+            o.n(x);
+        }
+    }
+}
+
+/// the real code: `try_from` + `apply`, mods prepared the way `Builder`/`Parameters::digest` prepare them
+fn run_apply(pos: Position, seq: &str, max: usize, vars: &VarMods, statics: &StaticMods)
+    -> Result<(Vec<usize>, Vec<Peptide>), ()> {
+    let digest = Digest {
+        decoy: false,
+        semi_enzymatic: false,
+        sequence: seq.to_string(),
+        protein: Arc::from("P1"),
+        missed_cleavages: 0,
+        position: pos,
+    };
+    let group = DigestGroup { reference: digest, proteins: vec![Arc::from("P1")] };
+    let peptide = Peptide::try_from(group).map_err(|_| ())?;
+    // variable: validate_var_mods drops unparsable keys; digest() flattens (key, masses) to (key, mass)
+    let mut var: Vec<(ModificationSpecificity, f32)> = Vec::new();
+    for (k, ms) in vars {
+        if let Ok(t) = ModificationSpecificity::from_str(k) {
+            for m in ms {
+                var.push((t, *m));
+            }
+        }
+    }
+    let smap: HashMap<String, f32> = statics.iter().cloned().collect();
+    let stat = validate_mods(Some(smap));
+    let order: Vec<usize> = stat
+        .iter()
+        .map(|(t, _)| {
+            statics
+                .iter()
+                .position(|(k, _)| ModificationSpecificity::from_str(k).ok() == Some(*t))
+                .expect("static key")
+        })
+        .collect();
+    let forms = peptide.apply(&var, &stat, max);
+    Ok((order, forms))
+}
+
+fn run_db(seq: &str, max: usize, lo: f32, hi: f32, vars: &VarMods, statics: &StaticMods) -> Vec<Peptide> {
+    let builder = Builder {
+        enzyme: Some(EnzymeBuilder {
+            missed_cleavages: Some(0),
+            min_len: Some(1),
+            max_len: Some(1_000_000),
+            cleave_at: Some("$".into()),
+            restrict: None,
+            c_terminal: Some(true),
+            semi_enzymatic: Some(false),
+        }),
+        peptide_min_mass: Some(lo),
+        peptide_max_mass: Some(hi),
+        static_mods: Some(statics.iter().cloned().collect()),
+        variable_mods: Some(vars.iter().cloned().collect()),
+        max_variable_mods: Some(max),
+        generate_decoys: Some(false),
+        fasta: Some("none".into()),
+        ..Default::default()
+    };
+    let params = builder.make_parameters();
+    let fasta = Fasta::parse(format!(">P1 test\n{}\n", seq), "rev_", false);
+    params.digest(&fasta)
+}
+
+pub fn exec(op: &str, t: &mut Toks) -> Option<String> {
+    let mut o = Out::new();
+    match op {
+        "modkey" => {
+            let k = t.string()?;
+            match ModificationSpecificity::from_str(&k) {
+                Ok(m) => {
+                    let (kind, r) = match m {
+                        ModificationSpecificity::PeptideN(r) => (0, r),
+                        ModificationSpecificity::PeptideC(r) => (1, r),
+                        ModificationSpecificity::ProteinN(r) => (2, r),
+                        ModificationSpecificity::ProteinC(r) => (3, r),
+                        ModificationSpecificity::Residue(r) => (4, Some(r)),
+                    };
+                    o.raw("ok").n(kind);
+                    match r {
+                        None => o.n(0),
+                        Some(r) => o.n(1).n(r),
+                    };
+                    o.s(&m.to_string());
+                }
+                Err(InvalidModification::Empty) => {
+                    o.raw("err:empty");
+                }
+                Err(InvalidModification::InvalidResidue(c)) => {
+                    o.raw("err:residue").n(c as u32);
+                }
+                Err(InvalidModification::TooLong(_)) => {
+                    o.raw("err:toolong");
+                }
+            }
+        }
+        "apply" => {
+            let pos = position(t.usize()?)?;
+            let seq = t.string()?;
+            let max = t.usize()?;
+            let (vars, statics) = read_mods(t)?;
+            match run_apply(pos, &seq, max, &vars, &statics) {
+                Err(()) => {
+                    o.raw("err:invalid");
+                }
+                Ok((order, forms)) => {
+                    o.raw("ok").n(order.len());
+                    for i in order {
+                        o.n(i);
+                    }
+                    write_forms(&mut o, &forms);
+                }
+            }
+        }
+        "dbforms" => {
+            let seq = t.string()?;
+            let max = t.usize()?;
+            let lo = t.f32()?;
+            let hi = t.f32()?;
+            let (vars, statics) = read_mods(t)?;
+            // the database with the requested bounds, then with no bounds at all (same code path), so that
+            // the range filter can be checked exactly on the implementation's own f32 masses
+            let forms = run_db(&seq, max, lo, hi, &vars, &statics);
+            let all = run_db(&seq, max, f32::NEG_INFINITY, f32::INFINITY, &vars, &statics);
+            o.raw("ok");
+            write_forms(&mut o, &forms);
+            write_forms(&mut o, &all);
+        }
+        _ => return None,
+    }
+    Some(o.finish())
+}
+
+// ------------------------------------------------------------------------------------------ generator
+
+const MASSES: &[f32] = &[
+    15.9949, 42.010565, 79.96633, -17.026548, 57.021465, 229.16293, 0.984016, 14.01565, 1.0, 2.0, 16.0, -18.010565,
+    304.2071, 28.0313, 114.04293,
+];
+const RESIDUES: &[u8] = b"AMKSCG";
+const ALL_AA: &[u8] = b"ACDEFGHIKLMNPQRSTVWYUO";
+const MARKERS: &[char] = &['^', '$', '[', ']'];
+
+fn mass(rng: &mut Rng) -> f32 {
+    if rng.chance(4, 5) {
+        *rng.pick(MASSES)
+    } else {
+        // a random f32 with a full mantissa
+        let x = (rng.unit() * 400.0 - 100.0) as f32;
+        if x.abs() < 0.001 { 0.5 } else { x }
+    }
+}
+
+fn rand_seq(rng: &mut Rng, maxlen: usize) -> String {
+    let len = rng.below(maxlen + 1);
+    let alpha: &[u8] = if rng.chance(1, 6) { ALL_AA } else { RESIDUES };
+    (0..len).map(|_| *rng.pick(alpha) as char).collect()
+}
+
+fn rand_key(rng: &mut Rng, seq: &str) -> String {
+    let b = seq.as_bytes();
+    let some_resi = |rng: &mut Rng| -> char {
+        if !b.is_empty() && rng.chance(3, 4) {
+            // first / last / any residue of the peptide
+            match rng.below(3) {
+                0 => b[0] as char,
+                1 => b[b.len() - 1] as char,
+                _ => b[rng.below(b.len())] as char,
+            }
+        } else {
+            *rng.pick(RESIDUES) as char
+        }
+    };
+    match rng.below(20) {
+        0..=7 => some_resi(rng).to_string(),
+        8..=11 => rng.pick(MARKERS).to_string(),
+        12..=17 => format!("{}{}", rng.pick(MARKERS), some_resi(rng)),
+        18 => rng.pick(&["MK", "^Z", "é", "", "^^", "B", "m", "^MK", "$é"]).to_string(),
+        _ => (*rng.pick(ALL_AA) as char).to_string(),
+    }
+}
+
+fn rand_vars(rng: &mut Rng, seq: &str, nmax: usize) -> VarMods {
+    let n = rng.below(nmax + 1);
+    let mut v: VarMods = Vec::new();
+    for _ in 0..n {
+        let k = rand_key(rng, seq);
+        if v.iter().any(|(k2, _)| *k2 == k) {
+            continue;
+        }
+        let nm = 1 + if rng.chance(1, 3) { rng.below(3) } else { 0 };
+        let mut ms: Vec<f32> = (0..nm).map(|_| mass(rng)).collect();
+        if rng.chance(1, 25) && !ms.is_empty() {
+            ms.push(ms[0]); // a mass listed twice: duplicate candidates
+        }
+        v.push((k, ms));
+    }
+    // now and then give two different keys the same mass (overlapping candidates such as ^A + A)
+    if v.len() >= 2 && rng.chance(1, 4) {
+        let m = v[0].1[0];
+        v[1].1[0] = m;
+    }
+    v
+}
+
+fn rand_statics(rng: &mut Rng, seq: &str, nmax: usize) -> StaticMods {
+    let n = rng.below(nmax + 1);
+    let mut v: StaticMods = Vec::new();
+    for _ in 0..n {
+        let k = rand_key(rng, seq);
+        if v.iter().any(|(k2, _)| *k2 == k) {
+            continue;
+        }
+        v.push((k, mass(rng)));
+    }
+    v
+}
+
+/// sites a key addresses (generator-side estimate, used only to size cases and to tag them)
+fn sites(key: &str, seq: &str, pos: usize) -> Vec<i64> {
+    let b = seq.as_bytes();
+    let c: Vec<char> = key.chars().collect();
+    let n_ok = pos == 0 || pos == 2;
+    let c_ok = pos == 1 || pos == 2;
+    let last = b.len() as i64 - 1;
+    match c.as_slice() {
+        ['^'] => vec![-1],
+        ['$'] => vec![-2],
+        ['['] => if n_ok { vec![-1] } else { vec![] },
+        [']'] => if c_ok { vec![-2] } else { vec![] },
+        ['^', r] => if b.first().map(|x| *x as char) == Some(*r) { vec![0] } else { vec![] },
+        ['$', r] => if b.last().map(|x| *x as char) == Some(*r) { vec![last] } else { vec![] },
+        ['[', r] => if n_ok && b.first().map(|x| *x as char) == Some(*r) { vec![0] } else { vec![] },
+        [']', r] => if c_ok && b.last().map(|x| *x as char) == Some(*r) { vec![last] } else { vec![] },
+        [r] => (0..b.len()).filter(|i| b[*i] as char == *r).map(|i| i as i64).collect(),
+        _ => vec![],
+    }
+}
+
+fn valid_key(k: &str) -> bool {
+    ModificationSpecificity::from_str(k).is_ok()
+}
+
+struct Shape {
+    cands: usize,
+    dup_cands: bool,
+    static_overlap: bool,
+    var_static_same_site: bool,
+}
+
+fn shape(pos: usize, seq: &str, vars: &VarMods, statics: &StaticMods) -> Shape {
+    let mut cands: Vec<(i64, u32)> = Vec::new();
+    for (k, ms) in vars {
+        if !valid_key(k) {
+            continue;
+        }
+        for m in ms {
+            for s in sites(k, seq, pos) {
+                cands.push((s, m.to_bits()));
+            }
+        }
+    }
+    let mut sorted = cands.clone();
+    sorted.sort();
+    sorted.dedup();
+    let mut ssites: Vec<i64> = Vec::new();
+    for (k, _) in statics {
+        if valid_key(k) {
+            ssites.extend(sites(k, seq, pos));
+        }
+    }
+    let mut s2 = ssites.clone();
+    s2.sort();
+    s2.dedup();
+    Shape {
+        cands: cands.len(),
+        dup_cands: sorted.len() != cands.len(),
+        static_overlap: s2.len() != ssites.len(),
+        var_static_same_site: cands.iter().any(|(s, _)| ssites.contains(s)),
+    }
+}
+
+fn binom_sum(n: usize, k: usize) -> usize {
+    let mut total = 0usize;
+    let mut c = 1usize;
+    for i in 1..=k.min(n) {
+        c = c * (n + 1 - i) / i;
+        total += c;
+    }
+    total
+}
+
+fn emit_apply(emit: &mut dyn FnMut(Case), tag: &'static str, pos: usize, seq: &str, mut max: usize, vars: &VarMods, statics: &StaticMods) {
+    let sh = shape(pos, seq, vars, statics);
+    // keep the number of combinations per case bounded
+    while max > 1 && binom_sum(sh.cands, max) > 400 {
+        max -= 1;
+    }
+    if binom_sum(sh.cands, max) > 400 {
+        return;
+    }
+    let valid_seq = seq.bytes().all(|c| ALL_AA.contains(&c));
+    let zero = vars.iter().any(|(_, ms)| ms.iter().any(|m| *m == 0.0)) || statics.iter().any(|(_, m)| *m == 0.0);
+    emit(Case::new(req_apply(pos, seq, max, vars, statics))
+        .tag(tag)
+        .tag_if(!valid_seq, "apply:invalid-sequence")
+        .tag_if(seq.is_empty(), "apply:empty-sequence")
+        .tag_if(sh.dup_cands, "apply:duplicate-candidates")
+        .tag_if(sh.static_overlap, "apply:static-overlap")
+        .tag_if(sh.var_static_same_site, "apply:var+static-same-site")
+        .tag_if(zero, "apply:zero-mass")
+        .tag_if(sh.cands > max && max > 0, "apply:max-binds")
+        .tag_if(max == 0, "apply:max=0")
+        .tag(match pos { 0 => "pos:nterm", 1 => "pos:cterm", 2 => "pos:full", _ => "pos:internal" })
+        .nontrivial(valid_seq && sh.cands > 0 && max > 0));
+}
+
+fn vm(v: &[(&str, &[f32])]) -> VarMods {
+    v.iter().map(|(k, ms)| (k.to_string(), ms.to_vec())).collect()
+}
+fn sm(v: &[(&str, f32)]) -> StaticMods {
+    v.iter().map(|(k, m)| (k.to_string(), *m)).collect()
+}
+
+fn gen_modkey(tier: Tier, emit: &mut dyn FnMut(Case)) {
+    let alphabet: Vec<char> = vec!['^', '$', '[', ']', 'M', 'K', 'A', 'Z', 'B', 'm', 'é', '-'];
+    let maxlen = if tier == Tier::Quick { 2 } else { 3 };
+    let mut strings: Vec<String> = vec![String::new()];
+    let mut frontier: Vec<String> = vec![String::new()];
+    for _ in 0..maxlen {
+        let mut next = Vec::new();
+        for s in &frontier {
+            for c in &alphabet {
+                let mut s2 = s.clone();
+                s2.push(*c);
+                next.push(s2);
+            }
+        }
+        strings.extend(next.iter().cloned());
+        frontier = next;
+    }
+    for s in strings {
+        emit(Case::new(req_key(&s)).tag("modkey:exhaustive"));
+    }
+    // the documented grammar, completely
+    for &r in ALL_AA {
+        emit(Case::new(req_key(&(r as char).to_string())).tag("modkey:grammar"));
+        for m in MARKERS {
+            emit(Case::new(req_key(&format!("{}{}", m, r as char))).tag("modkey:grammar"));
+        }
+    }
+    // every ASCII character alone, after each marker, and before a residue
+    for c in 0u8..128 {
+        let ch = c as char;
+        emit(Case::new(req_key(&ch.to_string())).tag("modkey:ascii"));
+        for m in MARKERS {
+            emit(Case::new(req_key(&format!("{}{}", m, ch))).tag("modkey:ascii"));
+        }
+        emit(Case::new(req_key(&format!("{}M", ch))).tag("modkey:ascii"));
+    }
+    for s in ["€", "^€", "😀", "^😀", "é", "^é", "éM", "Mé", "ÿ", "\u{80}", "^\u{80}", "\u{7ff}", "\u{800}", "Ａ", "^Ａ", "MKA", "^MK", "^^^", "M ", " M"] {
+        emit(Case::new(req_key(s)).tag("modkey:unicode-and-long"));
+    }
+}
+
+fn gen_directed(emit: &mut dyn FnMut(Case)) {
+    let e: VarMods = vec![];
+    let s0: StaticMods = vec![];
+    // DESIGN §5 #8: overlapping candidates generate the same form twice at `apply` level
+    emit_apply(emit, "apply:directed", 2, "AGGGGK", 1, &vm(&[("^A", &[42.0]), ("A", &[42.0])]), &s0);
+    emit_apply(emit, "apply:directed", 2, "AGGGGK", 2, &vm(&[("^A", &[42.0]), ("A", &[42.0])]), &s0);
+    emit_apply(emit, "apply:directed", 3, "MAMK", 2, &vm(&[("M", &[15.9949, 15.9949])]), &s0);
+    // the unit tests' shapes
+    emit_apply(emit, "apply:directed", 2, "GCASDDCAK", 2, &vm(&[("C", &[57.0, 30.0]), ("^", &[42.0]), ("$", &[11.0])]), &s0);
+    emit_apply(emit, "apply:directed", 2, "PEPTIDEK", 2, &vm(&[("[", &[42.0]), ("]", &[11.0]), ("P", &[15.0])]), &sm(&[("K", 8.0)]));
+    // variable and static on the same residue; static with the same mass as the variable one
+    for pos in 0..4 {
+        emit_apply(emit, "apply:directed", pos, "MCMK", 2, &vm(&[("M", &[15.9949])]), &sm(&[("C", 57.021465), ("M", 1.0)]));
+        emit_apply(emit, "apply:directed", pos, "MCMK", 2, &vm(&[("M", &[15.9949])]), &sm(&[("M", 15.9949)]));
+        // protein-terminal vs peptide-terminal, with and without residue
+        emit_apply(emit, "apply:directed", pos, "MAAK", 3, &vm(&[("[", &[42.010565]), ("]", &[-17.026548]), ("[M", &[1.0]), ("]K", &[2.0])]), &s0);
+        emit_apply(emit, "apply:directed", pos, "MAAK", 3, &vm(&[("^", &[42.010565]), ("$", &[-17.026548]), ("^M", &[1.0]), ("$K", &[2.0])]), &s0);
+        emit_apply(emit, "apply:directed", pos, "MAAK", 2, &e, &sm(&[("[", 42.010565), ("]", 17.0), ("[M", 1.0), ("]K", 2.0)]));
+        emit_apply(emit, "apply:directed", pos, "MAAK", 2, &vm(&[("K", &[8.0])]), &sm(&[("^", 229.16293), ("K", 229.16293)]));
+        // a residue key must not act on the first/last residue only, a terminal-residue key not elsewhere
+        emit_apply(emit, "apply:directed", pos, "KAKAK", 3, &vm(&[("^K", &[1.0]), ("$K", &[2.0])]), &s0);
+        emit_apply(emit, "apply:directed", pos, "KAKAK", 3, &vm(&[("K", &[1.0, 2.0])]), &s0);
+        emit_apply(emit, "apply:directed", pos, "AKAKA", 2, &vm(&[("^K", &[1.0]), ("$K", &[2.0]), ("[K", &[3.0]), ("]K", &[4.0])]), &s0);
+        // length 1: both ends are the same slot
+        emit_apply(emit, "apply:directed", pos, "K", 2, &vm(&[("^K", &[1.0]), ("$K", &[2.0]), ("K", &[3.0])]), &s0);
+        emit_apply(emit, "apply:directed", pos, "K", 3, &vm(&[("^", &[1.0]), ("$", &[2.0]), ("[", &[3.0]), ("]", &[4.0])]), &s0);
+        emit_apply(emit, "apply:directed", pos, "K", 1, &e, &sm(&[("^K", 1.0), ("$K", 2.0)]));
+        // empty peptide
+        emit_apply(emit, "apply:directed", pos, "", 2, &vm(&[("^", &[1.0]), ("^A", &[2.0]), ("A", &[3.0]), ("$A", &[4.0])]), &sm(&[("$", 5.0), ("^K", 6.0)]));
+        // max = 0, 1 and beyond the number of sites
+        for max in [0usize, 1, 4, 5] {
+            emit_apply(emit, "apply:directed", pos, "SAS", max, &vm(&[("S", &[79.96633]), ("^", &[42.010565])]), &sm(&[("A", 1.0)]));
+        }
+        // invalid keys are dropped, not misapplied (FIXES: MK, ^Z)
+        emit_apply(emit, "apply:directed", pos, "MKZ", 2, &vm(&[("MK", &[1.0]), ("^Z", &[2.0])]), &sm(&[("é", 3.0)]));
+        emit_apply(emit, "apply:directed", pos, "MKM", 2, &vm(&[("MK", &[1.0]), ("^Z", &[2.0]), ("m", &[4.0])]), &sm(&[("é", 3.0), ("KM", 5.0)]));
+        // invalid residues
+        for s in ["PEPTIDEZ", "BK", "peptide", "AK*", "AéK", "A K", "XAAK", "AAJ"] {
+            emit_apply(emit, "apply:directed", pos, s, 1, &vm(&[("A", &[1.0])]), &s0);
+        }
+        // zero masses (outside the property's premise; model comparison only)
+        emit_apply(emit, "apply:directed", pos, "MAMK", 2, &vm(&[("M", &[0.0, 16.0]), ("^", &[0.0])]), &sm(&[("M", 5.0), ("^", 7.0)]));
+        // masses that cancel: mass formula with negative terms
+        emit_apply(emit, "apply:directed", pos, "MAMK", 2, &vm(&[("M", &[16.0, -16.0])]), &sm(&[("K", -128.09496)]));
+    }
+    // all 22 residues carry their mass
+    emit_apply(emit, "apply:directed", 2, "ACDEFGHIKLMNPQRSTVWYUO", 1, &vm(&[("U", &[1.0]), ("O", &[2.0])]), &sm(&[("W", 3.0)]));
+}
+
+fn gen_small_scope(tier: Tier, emit: &mut dyn FnMut(Case)) {
+    let (maxlen, maxes): (usize, &[usize]) = if tier == Tier::Quick { (2, &[1, 2]) } else { (4, &[1, 2, 3]) };
+    let var_sets: Vec<VarMods> = vec![
+        vm(&[("A", &[1.0])]),
+        vm(&[("K", &[1.0, 2.0])]),
+        vm(&[("^", &[4.0]), ("$", &[8.0])]),
+        vm(&[("[", &[4.0]), ("]", &[8.0])]),
+        vm(&[("^A", &[1.0]), ("$K", &[2.0])]),
+        vm(&[("[A", &[1.0]), ("]K", &[2.0])]),
+        vm(&[("A", &[1.0]), ("^", &[4.0])]),
+        vm(&[("A", &[1.0]), ("K", &[2.0]), ("$", &[8.0])]),
+        vm(&[("^A", &[1.0]), ("A", &[2.0])]),
+        vm(&[("^A", &[1.0]), ("A", &[1.0])]),
+        vm(&[("^K", &[1.0]), ("[K", &[2.0]), ("$K", &[4.0]), ("]K", &[8.0])]),
+        vm(&[("A", &[1.0]), ("[", &[4.0]), ("]A", &[2.0])]),
+    ];
+    let static_sets: Vec<StaticMods> = vec![
+        sm(&[]),
+        sm(&[("A", 16.0)]),
+        sm(&[("K", 16.0), ("^", 32.0)]),
+        sm(&[("[", 32.0), ("]", 64.0)]),
+        sm(&[("^A", 16.0), ("$K", 32.0)]),
+        sm(&[("A", 1.0), ("$", 64.0), ("[K", 32.0)]),
+    ];
+    let mut seqs: Vec<String> = vec![String::new()];
+    let mut frontier = seqs.clone();
+    for _ in 0..maxlen {
+        let mut next = Vec::new();
+        for s in &frontier {
+            for c in ['A', 'K'] {
+                let mut s2 = s.clone();
+                s2.push(c);
+                next.push(s2);
+            }
+        }
+        seqs.extend(next.iter().cloned());
+        frontier = next;
+    }
+    for seq in &seqs {
+        for pos in 0..4 {
+            for v in &var_sets {
+                for s in &static_sets {
+                    for &max in maxes {
+                        emit_apply(emit, "apply:small-scope", pos, seq, max, v, s);
+                    }
+                }
+            }
+        }
+    }
+}
+
+fn gen_random(rng: &mut Rng, tier: Tier, emit: &mut dyn FnMut(Case)) {
+    let (n, maxlen) = if tier == Tier::Quick { (1500, 8) } else { (150000, 12) };
+    for _ in 0..n {
+        let mut seq = rand_seq(rng, maxlen);
+        if rng.chance(1, 30) && !seq.is_empty() {
+            // spoil one residue
+            let i = rng.below(seq.len());
+            let bad = *rng.pick(&['B', 'Z', 'X', 'J', 'a', '*', 'é', '1']);
+            let mut cs: Vec<char> = seq.chars().collect();
+            cs[i] = bad;
+            seq = cs.into_iter().collect();
+        }
+        let pos = rng.below(4);
+        let max = *rng.pick(&[0usize, 1, 1, 2, 2, 2, 3, 3, 4]);
+        let vars = rand_vars(rng, &seq, 4);
+        let statics = rand_statics(rng, &seq, 3);
+        emit_apply(emit, "apply:random", pos, &seq, max, &vars, &statics);
+    }
+}
+
+fn next_up(x: f32) -> f32 {
+    f32::from_bits(x.to_bits() + 1)
+}
+fn next_down(x: f32) -> f32 {
+    f32::from_bits(x.to_bits() - 1)
+}
+
+fn gen_db(rng: &mut Rng, tier: Tier, emit: &mut dyn FnMut(Case)) {
+    let n = if tier == Tier::Quick { 400 } else { 20000 };
+    let mut done = 0;
+    let mut attempts = 0;
+    while done < n && attempts < 20 * n {
+        attempts += 1;
+        let mut seq = rand_seq(rng, 8);
+        if seq.is_empty() {
+            continue; // Parameters::digest panics on a FASTA without peptides (outside the property; FIXES.md)
+        }
+        if rng.chance(1, 40) {
+            seq.push(*rng.pick(&['B', 'Z', 'x']));
+        }
+        let max = *rng.pick(&[0usize, 1, 2, 2, 3]);
+        let vars = rand_vars(rng, &seq, 3);
+        let statics = rand_statics(rng, &seq, 2);
+        let sh = shape(2, &seq, &vars, &statics);
+        if sh.static_overlap || binom_sum(sh.cands, max.max(1)) > 300 {
+            continue;
+        }
+        // duplicate keys cannot reach Parameters (they are HashMap keys): rand_vars/rand_statics never repeat one
+        let masses: Vec<f32> = match run_apply(Position::Full, &seq, max.max(1), &vars, &statics) {
+            Ok((_, forms)) => forms.iter().map(|p| p.monoisotopic).collect(),
+            Err(()) => vec![],
+        };
+        let pickm = |rng: &mut Rng| -> f32 {
+            if masses.is_empty() { 500.0 } else { *rng.pick(&masses) }
+        };
+        let (lo, hi, tag): (f32, f32, &'static str) = match rng.below(8) {
+            0 => (0.0, 1.0e6, "db:range-all"),
+            1 => { let m = pickm(rng); (m, 1.0e6, "db:lo=form-mass") }
+            2 => { let m = pickm(rng); (next_up(m), 1.0e6, "db:lo=form-mass+1ulp") }
+            3 => { let m = pickm(rng); (0.0, m, "db:hi=form-mass") }
+            4 => { let m = pickm(rng); (0.0, next_down(m), "db:hi=form-mass-1ulp") }
+            5 => { let a = pickm(rng); let b = pickm(rng); (a.min(b), a.max(b), "db:lo,hi=form-masses") }
+            6 => { let m = pickm(rng); (m, m, "db:lo=hi=form-mass") }
+            _ => { let m = pickm(rng); (m - 10.0, m + 10.0, "db:window") }
+        };
+        let inside = masses.iter().filter(|m| **m >= lo && **m <= hi).count();
+        emit(Case::new(req_db(&seq, max, lo, hi, &vars, &statics))
+            .tag(tag)
+            .tag_if(sh.dup_cands, "db:duplicate-candidates")
+            .tag_if(inside == 0, "db:nothing-in-range")
+            .tag_if(inside == masses.len() && inside > 0, "db:everything-in-range")
+            .nontrivial(inside > 0 && inside < masses.len()));
+        done += 1;
+    }
+}
+
+pub fn gen(rng: &mut Rng, tier: Tier, emit: &mut dyn FnMut(Case)) {
+    gen_modkey(tier, emit);
+    gen_directed(emit);
+    gen_small_scope(tier, emit);
+    gen_random(rng, tier, emit);
+    gen_db(rng, tier, emit);
 }
